@@ -9,7 +9,7 @@ EXPLANATION = ("Encoders: every `From<X> for RawControl` / `From<X> for Exop` is
                "5805, 3296, 3062, 4532, 4511, draft relax); CriticalControl sets criticality on the wrapped control's own encoding. "
                "Decoders: PagedResults, SyncState, SyncDone, parse_syncinfo, ReadEntryResp, PasswordModifyResp, WhoAmIResp, StartTxnResp - "
                "which child ordinal / tag feeds which field, required class/tag checks, the EntryState and SyncInfo choice tables and the "
-               "RFC 4533 defaults (refreshDone TRUE, refreshDeletes FALSE). Envelope (Z13/Z14 encoder, Z.* decoder; the same rule functions as C02 S13/S14 and C03 T3): a control list is encoded as [0]{SEQ{OCTET type, BOOLEAN TRUE only-if critical, OCTET value only-if present}*} and decoded per control in *any* position of the list (loop-carried state included) as child 0 -> type, BOOLEAN -> criticality = content != 0, absent criticality -> false, absent value -> None. "
+               "RFC 4533 defaults (refreshDone TRUE, refreshDeletes FALSE). Integer fields of response values (PagedResults size, the SyncState ENUMERATED): the decoder is interpreted with the component's content octets fixed to literal strings of every length 0..12 (distinct, high-bit, all-ones, zero-padded) and the field must be the big-endian value modulo the cast to the field's type - whichever function reads the octets (parse_uint, a local helper, a loop in place). Y.optional-absent: for every OPTIONAL / DEFAULT component of a response value's RFC shape the decoder has a returning path on which the cursor read at that position was not taken to have yielded an element (a read whose None flows into expect / unwrap leaves no such path). Envelope (Z13/Z14 encoder, Z.* decoder; the same rule functions as C02 S13/S14 and C03 T3): a control list is encoded as [0]{SEQ{OCTET type, BOOLEAN TRUE only-if critical, OCTET value only-if present}*} and decoded per control in *any* position of the list (loop-carried state included) as child 0 -> type, BOOLEAN -> criticality = content != 0, absent criticality -> false, absent value -> None. "
                "Not decided: byte-level equality of arbitrary cookies; lber's serialisation (C07).")
 TRUSTED = ['lber serialisation of a shape (C07)', 'RFC tables transcribed in this module']
 UNDECIDED = ['byte-level equality of arbitrary field contents', 'EndTxnResp (not in the property\'s list of response values)']
@@ -95,6 +95,90 @@ def nths(t):
     return sorted({x[3] for x in absx.leaves(t, lambda x: x[0] == 'nth')})
 def has_arg(t, callee_suffix, pred):
     return any(pred(a) for x in absx.leaves(t, lambda x: x[0] == 'call' and x[1].endswith(callee_suffix)) for a in x[2][1:])
+
+
+# ---------------------------------------------------------------------------------------
+# Integer fields of response values.  Which function turns the content octets into the integer - lber's parse_uint, a local
+# helper, a fold or a loop written in place - is not read off the source: the decoder itself is interpreted with the primitive
+# content of the component fixed to a literal octet string, for every string of a finite set chosen as in C07 B6 / C03
+# T1.unsigned-reader-big-endian (every length 0..12; distinct octets, high-bit octets, all-ones, zero-padded forms), and the value
+# that reaches the field must be the big-endian value of the octets, taken modulo the cast to the field's type (`as i32` of the
+# u64 = the low 32 bits read as two's complement).  Nothing of the library is executed: the typed HIR is interpreted on literals.
+
+def int_vectors():
+    vecs = [b'\xc8', b'\x03\xe8', b'\x00\xc8', b'\x7f\xff\xff\xff']      # page sizes 200, 1000, 200 with a sign octet, maxInt
+    for n in range(0, 9):
+        vecs += [bytes(range(1, n + 1)), bytes(0x80 + i for i in range(n)), b'\xff' * n, b'\x00' * n]
+        if n:
+            vecs += [b'\x00' * (n - 1) + b'\x81', b'\x7f' + b'\x00' * (n - 1)]
+    for pad in range(1, 5):
+        vecs += [b'\x00' * pad + bytes(range(1, 9)), b'\x00' * pad + b'\xff' * 8, b'\x00' * (pad + 7) + b'\x2a', b'\x00' * pad + b'\x01\x00']
+    vecs += [bytes([v]) for v in range(0, 6)] + [b'\x00' + bytes([v]) for v in range(0, 4)] + [b'\x01\x00', b'\x01\x01']
+    return sorted(set(vecs), key=lambda x: (len(x), x))
+
+def literal_inline(c):
+    """the decoders' own modules and lber's unsigned reader are interpreted; everything else stays an opaque call (so a reader
+    the interpreter cannot follow leaves a non-literal in the field and the rule fails closed)"""
+    return 'ldap3::controls_impl::' in c or 'ldap3::exop_impl::' in c or c == 'lber::parse::parse_uint'
+
+def eval_with_content(f, B, ordinal, octets, reads=None):
+    """The paths of decoder B when the primitive content of the component read at cursor position `ordinal` is the literal octet
+    string (either spelling of "the content": expect_primitive() of that element, or its PL::P payload); everything else about the
+    value stays symbolic.  `reads` collects what the content was taken from: ('checked', t) for expect_primitive(t) - t shows the
+    class / tag requirements the element had to pass -, ('payload', t) for the payload field of element t."""
+    of = lambda t: nths(t) == [ordinal]
+    def note(r):
+        if reads is not None and r not in reads:
+            reads.append(r)
+    def content(I, cal, args, node, st):
+        if cal.endswith('::expect_primitive') and len(args) == 1 and of(args[0]):
+            note(('checked', args[0]))
+            return [absx.Out('val', ('ctor', 'Some', (('lit', octets),)), st)]
+        return None
+    def payload(base, name, st):
+        if name == 'payload' and of(base):
+            note(('payload', base))
+            return ('ctor', 'PL::P', (('lit', octets),))
+        return None
+    return absx.Interp(f, B, summaries=[content], unroll=16, inline=literal_inline, field_hook=payload, combinators=True).run()
+
+def source_is(reads, tagno):
+    """every place the literal content was substituted at is the content of an element of the parsed input's child sequence that
+    had to pass match_class(Universal) and match_id(tagno) first (the term handed to expect_primitive is the result of that chain)"""
+    return bool(reads) and all(k == 'checked' and has_arg(t, 'match_id', lambda a: a == ('lit', tagno))
+                               and has_arg(t, 'match_class', lambda a: a == ('ctor', 'TagClass::Universal', ()))
+                               and all(c in calls_in(t) for c in ('parse_tag', 'expect_constructed')) and absx.leaves(t, lambda x: x[0] == 'param') != []
+                               for k, t in reads)
+
+def wrap_int(v, ty):
+    rng = absx.INT_RANGE[ty]
+    return (v - rng[0]) % (rng[1] - rng[0] + 1) + rng[0]
+
+def field_type(f, struct_path, field):
+    for v in f.items[struct_path]['variants']:
+        for fl in v['fields']:
+            if fl['name'] == field:
+                return fl['ty']
+    return None
+
+def check_int_field(ctx, f, B, rule, inst, ordinal, struct_path, field):
+    """field `field` of the decoded struct = big-endian value of the content octets of component `ordinal`, modulo the field's type"""
+    ty = field_type(f, struct_path, field)
+    if ty not in absx.INT_RANGE:
+        ctx.fail(rule, inst, loc(B.root), 'field %s of %s has type %s, not an integer type' % (field, struct_path, ty)); return
+    wrong, vecs, reads = [], int_vectors(), []
+    for v in vecs:
+        outs = [o for o in eval_with_content(f, B, ordinal, v, reads) if o.kind != 'div']
+        want = wrap_int(int.from_bytes(v, 'big'), ty)
+        got = [dict(o.val[2]).get(field, ('unk',)) if o.kind in ('val', 'ret') and o.val[0] == 'struct' else ('unk', o.kind) for o in outs]
+        if not got or any(g != ('lit', want) for g in got):
+            wrong.append((v.hex() or '(empty)', sorted({absx.fmt(g)[:40] for g in got}) or 'no returning path', want))
+    high = [w for w in wrong if any(c >= '8' for c in w[0][::2])]
+    ctx.add(rule, inst, loc(B.root), not wrong,
+            'the integer reader does not yield the big-endian value of the content octets (as %s): evaluated exactly on %d literal octet strings '
+            '(lengths 0..12), %d differ%s; (octets, decoded, big-endian value as %s): %s'
+            % (ty, len(vecs), len(wrong), ', all of them with an octet >= 0x80' if wrong and len(high) == len(wrong) else '', ty, wrong[:4]))
+    return reads
 
 def run(ctx):
     f = ctx.facts
@@ -192,33 +276,45 @@ def run(ctx):
     for o in outs:
         fl = dict(o.val[2])
         size, cookie = fl.get('size', ('unk',)), fl.get('cookie', ('unk',))
-        ok = nths(size) == [0] and all(c in calls_in(size) for c in ('parse_tag', 'expect_constructed', 'parse_uint', 'expect_primitive', 'match_id', 'match_class')) \
-            and has_arg(size, 'match_id', lambda a: a == ('lit', 2)) and has_arg(size, 'match_class', lambda a: a == ('ctor', 'TagClass::Universal', ()))
-        ctx.add('Y.paged.size', 'child 0', loc(B.root), ok, 'size is not parse_uint of child 0 as universal INTEGER primitive: %s' % absx.fmt(size)[:100])
         ctx.add('Y.paged.cookie', 'child 1', loc(B.root), nths(cookie) == [1] and 'expect_primitive' in calls_in(cookie), 'cookie is not the content of child 1')
-        ctx.add('Y.paged.input', 'val', loc(B.root), 'parse_tag' in calls_in(size) and absx.leaves(size, lambda x: x[0] == 'param') != [], 'the parsed bytes are not the control value')
+        ctx.add('Y.paged.input', 'val', loc(B.root), 'parse_tag' in calls_in(cookie) and absx.leaves(cookie, lambda x: x[0] == 'param') != [], 'the parsed bytes are not the control value')
+    # the size: how the content octets of child 0 become the integer is decided by literal evaluation, whatever function does it;
+    # where they come from is read off the term the content was taken from (not off the size term, which is a loop-carried
+    # value when the reader is a loop written in place)
+    reads = check_int_field(ctx, f, B, 'Y.paged.size', 'integer reader', 0, 'ldap3::controls_impl::paged_results::PagedResults', 'size')
+    ctx.add('Y.paged.size', 'child 0', loc(B.root), source_is(reads or [], 2),
+            'size is not computed from the content of child 0 of the parsed control value, required to be a universal INTEGER primitive: content taken from %s' % [(k, absx.fmt(t)[:100]) for k, t in (reads or [])][:2])
     # SyncState
     B, outs = parse_paths('<ldap3::controls_impl::content_sync::SyncState as ' + CP)
-    table = {}
     for o in outs:
         fl = dict(o.val[2])
         stt = fl.get('state', ('unk',))
-        code = [a[3][1] for a, t in o.st.pc if t and a[0] == 'bin' and a[1] == 'Eq' and a[3][0] == 'lit' and 'parse_uint' in calls_in(a[2]) and nths(a[2]) == [0]]
-        if stt[0] == 'ctor' and code:
-            table[code[0]] = stt[1]
-            src = [a[2] for a, t in o.st.pc if t and a[0] == 'bin' and a[1] == 'Eq' and 'parse_uint' in calls_in(a[2])][0]
-            ctx.add('Y.syncstate.state-source', str(code[0]), loc(B.root), has_arg(src, 'match_id', lambda a: a == ('lit', 10)) and has_arg(src, 'match_class', lambda a: a == ('ctor', 'TagClass::Universal', ())),
-                    'state is not read from child 0 as universal ENUMERATED')
         ctx.add('Y.syncstate.uuid', absx.fmt(stt), loc(B.root), nths(fl.get('entry_uuid', ('unk',))) == [1] and 'expect_primitive' in calls_in(fl['entry_uuid']), 'entryUUID is not the content of child 1')
         ck = fl.get('cookie', ('unk',))
         ctx.add('Y.syncstate.cookie', absx.fmt(stt) + ('|some' if ck != ('ctor', 'None', ()) else '|none'), loc(B.root),
                 ck == ('ctor', 'None', ()) or (ck[0] == 'ctor' and ck[1] == 'Some' and nths(ck) == [2] and 'expect_primitive' in calls_in(ck)), 'cookie is not the optional content of child 2')
-    want = {0: 'EntryState::Present', 1: 'EntryState::Add', 2: 'EntryState::Modify', 3: 'EntryState::Delete'}     # RFC 4533 2.3
-    ctx.add('Y.syncstate.state-table', 'EntryState', loc(B.root), table == want, 'state table %s, RFC 4533: %s' % (table, want))
+    # which state each value denotes: the decoder is interpreted with the ENUMERATED's content fixed to literal octet strings (the
+    # integer reader - parse_uint or any other - and the selection of the variant are evaluated exactly, see check_int_field)
+    want = {0: 'EntryState::Present', 1: 'EntryState::Add', 2: 'EntryState::Modify', 3: 'EntryState::Delete'}     # RFC 4533 2.2
+    table, wrong, vecs, reads = {}, [], int_vectors(), []
+    for v in vecs:
+        res = [o for o in eval_with_content(f, B, 0, v, reads) if o.kind != 'div']
+        val = int.from_bytes(v, 'big')
+        got = sorted({absx.fmt(dict(o.val[2]).get('state', ('unk',)))[:30] if o.kind in ('val', 'ret') and o.val[0] == 'struct' else o.kind for o in res})
+        if len(v) == 1 and len(got) == 1:
+            table[val] = got[0]
+        if got != ([want[val]] if val in want else []):
+            wrong.append((v.hex() or '(empty)', got or 'rejected', want.get(val, 'rejected')))
+    ctx.add('Y.syncstate.state-table', 'EntryState', loc(B.root), not wrong and table == want,
+            'state table %s, RFC 4533: %s; evaluated exactly on %d literal contents of the ENUMERATED, (octets, decoded state, expected) differ at %s' % (table, want, len(vecs), wrong[:4]))
+    ctx.add('Y.syncstate.state-source', 'child 0', loc(B.root), source_is(reads, 10),
+            'state is not read from the content of child 0 of the parsed control value, required to be a universal ENUMERATED primitive: content taken from %s' % [(k, absx.fmt(t)[:100]) for k, t in reads][:2])
     # SyncDone (inductive argument over the component loop)
     check_syncdone(ctx, f)
     # parse_syncinfo
     check_syncinfo(ctx, f)
+    # OPTIONAL components absent
+    check_optional_absent(ctx, f)
     # the control envelope both ways (shared rule functions)
     from props import C02, C03
     C02.check_envelope(ctx, f, 'Z')
@@ -238,9 +334,18 @@ def run(ctx):
     B, outs = parse_paths('<ldap3::exop_impl::passmod::PasswordModifyResp as ldap3::exop_impl::ExopParser>::parse')
     for o in outs:
         g = dict(o.val[2]).get('gen_pass', ('unk',))
-        ok = nths(g) == [0] and 'from_utf8' in calls_in(g) and 'expect_primitive' in calls_in(g) and has_arg(g, 'match_id', lambda a: a == ('lit', 0)) \
-            and has_arg(g, 'match_class', lambda a: a == ('ctor', 'TagClass::Context', ()))
-        ctx.add('Y.passmod.genpasswd', '[0]', loc(B.root), ok, 'genPasswd is not the UTF-8 content of child 0 required to be [0] context primitive (RFC 3062)')
+        if 0 in cursor_reads_taken(o.st.pc, 0):
+            if g[0] == 'ctor' and g[1] == 'Some' and len(g[2]) == 1:
+                g = g[2][0]             # a field that can say "absent" says "present" here
+            ok = nths(g) == [0] and 'from_utf8' in calls_in(g) and 'expect_primitive' in calls_in(g) and has_arg(g, 'match_id', lambda a: a == ('lit', 0)) \
+                and has_arg(g, 'match_class', lambda a: a == ('ctor', 'TagClass::Context', ()))
+            ctx.add('Y.passmod.genpasswd', '[0]', loc(B.root), ok, 'genPasswd is not the UTF-8 content of child 0 required to be [0] context primitive (RFC 3062)')
+        else:
+            # the path on which the sequence is empty (Y.optional-absent demands that there is one): nothing was generated
+            # "nothing": None, the empty string literal, or the text of an empty byte vector (String::from_utf8(vec![]) is Ok(""))
+            empty_text = g[0] == 'variant' and g[2] == 'Ok' and g[1][0] == 'call' and g[1][1].endswith('::from_utf8') and g[1][2] and g[1][2][0] in (('vec', ()), ('lit', b''))
+            ctx.add('Y.passmod.genpasswd', 'absent', loc(B.root), g in (('ctor', 'None', ()), ('lit', '')) or empty_text,
+                    'an empty PasswdModifyResponseValue does not decode to "no generated password": %s' % absx.fmt(g)[:80])
     ctx.floor('Y', 'PasswordModifyResp paths', len(outs), 1)
     for path, field in (('<ldap3::exop_impl::whoami::WhoAmIResp as ldap3::exop_impl::ExopParser>::parse', 'authzid'),
                         ('<ldap3::exop_impl::txn::StartTxnResp as ldap3::exop_impl::ExopParser>::parse', 'txn_id')):
@@ -395,6 +500,83 @@ def check_steps(ctx, rule, inst, where, steps, roles, changed, pred, what):
     ctx.add(rule, inst, where, not bad, '%s: %s' % (what, '; '.join(sorted(set(bad)))[:300]))
 
 UNIVERSAL_OTHERS = (2, 5, 10, 16)     # representatives of the universal tags that neither decoder assigns a meaning to
+
+# ---------------------------------------------------------------------------------------
+# OPTIONAL / DEFAULT components of a response value.
+#
+# Reference shapes of the response values of C19's list, as far as this rule needs them: the components of the value's SEQUENCE in
+# order, each REQ(uired) or OPT(ional; ASN.1 OPTIONAL or DEFAULT - BER may omit both, DER must omit a DEFAULT component that has
+# its default value).  A value whose optional components are absent is as well-formed as one that carries them, so the decoder
+# must have a returning path for it: for every number n of components that a well-formed value can have (the required ones plus
+# any number of the optional ones) there must be a path that returns the decoded struct on which no read of the component cursor
+# at a position >= n was taken to have yielded an element - which is what `next().expect(..)`, `next().unwrap()`, `let Some(..) =
+# next() else { panic }` all do to the path: the read yielding None flows into the panic and only "it was Some" continues.
+# A `for` / `while let` over the cursor has no such read: its None alternative is the loop's exit (what is then returned is the
+# business of the inductive rules Y.syncdone.* / Y.syncinfo.*).  The tags stay symbolic here, so this is a necessary condition.
+REQ, OPTC = 'required', 'optional'
+CPP = ' as ldap3::controls_impl::ControlParser>::parse'
+EPP = ' as ldap3::exop_impl::ExopParser>::parse'
+RESPONSE_REFS = [
+    # (name, decoder, cursor depth, CHOICE alternative or None, components, reference)
+    ('PagedResults', '<ldap3::controls_impl::paged_results::PagedResults' + CPP, 0, None, (('size', REQ), ('cookie', REQ)),
+     'RFC 2696: realSearchControlValue ::= SEQUENCE { size INTEGER (0..maxInt), cookie OCTET STRING }'),
+    ('SyncState', '<ldap3::controls_impl::content_sync::SyncState' + CPP, 0, None, (('state', REQ), ('entryUUID', REQ), ('cookie', OPTC)),
+     'RFC 4533 2.2: syncStateValue ::= SEQUENCE { state ENUMERATED, entryUUID syncUUID, cookie syncCookie OPTIONAL }'),
+    ('SyncDone', '<ldap3::controls_impl::content_sync::SyncDone' + CPP, 0, None, (('cookie', OPTC), ('refreshDeletes', OPTC)),
+     'RFC 4533 2.4: syncDoneValue ::= SEQUENCE { cookie syncCookie OPTIONAL, refreshDeletes BOOLEAN DEFAULT FALSE }'),
+    ('SyncInfo message', 'ldap3::controls_impl::content_sync::parse_syncinfo', 0, None, (('responseName', OPTC), ('responseValue', REQ)),
+     'RFC 4511 4.13: IntermediateResponse ::= [APPLICATION 25] SEQUENCE { responseName [0] LDAPOID OPTIONAL, responseValue [1] OCTET STRING OPTIONAL }; RFC 4533 2.5 puts the syncInfoValue into responseValue'),
+    ('SyncInfo refreshDelete', 'ldap3::controls_impl::content_sync::parse_syncinfo', 1, 1, (('cookie', OPTC), ('refreshDone', OPTC)),
+     'RFC 4533 2.5: refreshDelete [1] SEQUENCE { cookie syncCookie OPTIONAL, refreshDone BOOLEAN DEFAULT TRUE }'),
+    ('SyncInfo refreshPresent', 'ldap3::controls_impl::content_sync::parse_syncinfo', 1, 2, (('cookie', OPTC), ('refreshDone', OPTC)),
+     'RFC 4533 2.5: refreshPresent [2] SEQUENCE { cookie syncCookie OPTIONAL, refreshDone BOOLEAN DEFAULT TRUE }'),
+    ('SyncInfo syncIdSet', 'ldap3::controls_impl::content_sync::parse_syncinfo', 1, 3, (('cookie', OPTC), ('refreshDeletes', OPTC), ('syncUUIDs', REQ)),
+     'RFC 4533 2.5: syncIdSet [3] SEQUENCE { cookie syncCookie OPTIONAL, refreshDeletes BOOLEAN DEFAULT FALSE, syncUUIDs SET OF syncUUID }'),
+    ('ReadEntryResp', '<ldap3::controls_impl::read_entry::ReadEntryResp' + CPP, 0, None, (('objectName', REQ), ('attributes', REQ)),
+     'RFC 4527 3.1 / RFC 4511 4.5.2: SearchResultEntry ::= [APPLICATION 4] SEQUENCE { objectName LDAPDN, attributes PartialAttributeList }'),
+    ('PasswordModifyResp', '<ldap3::exop_impl::passmod::PasswordModifyResp' + EPP, 0, None, (('genPasswd', OPTC),),
+     'RFC 3062 2: PasswdModifyResponseValue ::= SEQUENCE { genPasswd [0] OCTET STRING OPTIONAL }'),
+    ('WhoAmIResp', '<ldap3::exop_impl::whoami::WhoAmIResp' + EPP, 0, None, (),
+     'RFC 4532 2.2: the response value is the authzId itself (no components)'),
+    ('StartTxnResp', '<ldap3::exop_impl::txn::StartTxnResp' + EPP, 0, None, (),
+     'RFC 5805 2.1: the response value is the transaction identifier itself (no components)'),
+]
+
+def cursor_reads_taken(pc, depth):
+    """positions of the reads of the component cursor `depth` sequence levels below the decoder's input that the path took to
+    have yielded an element"""
+    out = set()
+    for a, t in pc:
+        if t and a[0] == 'is' and a[2] == 'Some' and a[1][0] == 'nth' and elem_depth(a[1]) - 1 == depth:
+            out.add(a[1][3])
+    return out
+
+def check_optional_absent(ctx, f):
+    evaluated = 0
+    for name, path, depth, alt, comps, ref in RESPONSE_REFS:
+        B = hirq.Body(f, f.body(path))
+        ctx.analysed['bodies'].add(path)
+        m = len(comps)
+        r = len([c for c in comps if c[1] == REQ])
+        if r == m:
+            continue            # no OPTIONAL component: nothing can be absent from a well-formed value
+        hook = tag_hook({('parsed', 1): ('Context', alt)}) if alt is not None else None
+        I = absx.Interp(f, B, unroll=1, inline=inline_policy, field_hook=hook)
+        if hook is not None:
+            hook.interp = I
+        res = [o for o in I.run() if o.kind in ('val', 'ret') and o.val[0] in ('struct', 'ctor')
+               and (alt is None or o.val[1].startswith('SyncInfo::'))]
+        evaluated += 1
+        for n in range(r, m):
+            good = [o for o in res if not [k for k in cursor_reads_taken(o.st.pc, depth) if k >= n]]
+            forced = sorted({k for o in res for k in cursor_reads_taken(o.st.pc, depth) if k >= n})
+            opt = [c[0] for c in comps if c[1] == OPTC]
+            ctx.add('Y.optional-absent', '%s|%d of %d components' % (name, n, m), loc(B.root), bool(good),
+                    'a well-formed value with %d component(s) (optional: %s) has no decoding path: %s; %s'
+                    % (n, ', '.join(opt), 'every returning path takes the cursor read(s) at position(s) %s to have yielded an element (the read yielding None flows into expect / unwrap / a panic)' % forced
+                       if res else 'the decoder has no returning path at all', ref))
+    ctx.floor('Y', 'response values with an OPTIONAL component evaluated', evaluated, 7)
+
 
 def check_syncdone(ctx, f):
     """RFC 4533 2.4: syncDoneValue ::= SEQUENCE { cookie syncCookie OPTIONAL, refreshDeletes BOOLEAN DEFAULT FALSE }"""
